@@ -883,16 +883,16 @@ fn enumerate_schemas_base(thorough: bool) -> Vec<Schema> {
                 b.st("G-type", Shape::Named, enc, None, vec![f.clone(), fld(2, FTy::U8)]);
                 // ... and as the only / last field
                 b.st("G-type", Shape::Named, enc, None, vec![fld(0, FTy::U8), f.clone()]);
-                if enc.is_none() {
-                    b.st("G-type", Shape::Tuple, enc, None, vec![f.clone(), fld(2, FTy::OptU8)]);
-                }
+                b.st("G-type", Shape::Tuple, enc, None, vec![f.clone(), fld(2, FTy::OptU8)]);
                 // inside an enum variant
                 if !matches!(ty, FTy::GenericU8 | FTy::GenericOptU8) || !borrow {
-                    let variants = vec![
-                        VariantS { idx: 0, shape: Shape::Named, enc: None, tag: None, fields: vec![f.clone(), fld(2, FTy::OptU8)] },
-                        VariantS { idx: 1, shape: Shape::Unit, enc: None, tag: None, fields: vec![] },
-                    ];
-                    b.push("G-type", false, Kind::Enum(EnumS { enc, tag: None, index_only: false, variants }));
+                    for vshape in [Shape::Named, Shape::Tuple] {
+                        let variants = vec![
+                            VariantS { idx: 0, shape: vshape, enc: None, tag: None, fields: vec![f.clone(), fld(2, FTy::OptU8)] },
+                            VariantS { idx: 1, shape: Shape::Unit, enc: None, tag: None, fields: vec![] },
+                        ];
+                        b.push("G-type", false, Kind::Enum(EnumS { enc, tag: None, index_only: false, variants }));
+                    }
                 }
             }
         }
@@ -977,32 +977,70 @@ pub fn type_use(s: &Schema, all: &[Schema], lt: &str) -> String {
     }
 }
 
-fn field_attrs(f: &FieldS) -> String {
+/// Attribute spelling is a dimension of its own: the same schema must behave identically whether the
+/// index is written `#[n(i)]` or `#[cbor(n(i))]`, whether tag / codec attributes come before or after
+/// it, in one `#[cbor(..)]` list or in several, and whether the byte-string codec is named through
+/// `with` or through `encode_with` + `decode_with` + `cbor_len`. The style is chosen by schema id % 3.
+fn field_attrs(f: &FieldS, style: usize) -> String {
     if f.skip {
         return "#[cbor(skip)] ".into();
     }
-    let mut a = format!("#[{}({})] ", if f.borrow { "b" } else { "n" }, f.idx);
+    let idx_kw = if f.borrow { "b" } else { "n" };
+    let mut parts: Vec<String> = Vec::new();
     if let Some(t) = f.tag {
-        a.push_str(&format!("#[cbor(tag({}))] ", t));
+        parts.push(format!("tag({})", t));
     }
     match f.ty {
-        FTy::BytesVec | FTy::OptBytesRef => a.push_str("#[cbor(with = \"minicbor::bytes\")] "),
-        FTy::NilU8Fns => a.push_str("#[cbor(encode_with = \"derive_rt::nilu8::encode\", decode_with = \"derive_rt::nilu8::decode\", is_nil = \"derive_rt::nilu8::is_nil\", nil = \"derive_rt::nilu8::nil\", cbor_len = \"derive_rt::nilu8::cbor_len\")] "),
-        FTy::NilU8FnsB => a.push_str("#[cbor(encode_with = \"derive_rt::nilu8::encode\", is_nil = \"derive_rt::nilu8::is_nil\", cbor_len = \"derive_rt::nilu8::cbor_len\", decode_with = \"derive_rt::nilu8::decode\", nil = \"derive_rt::nilu8::nil\")] "),
-        FTy::NilU8FnsC => a.push_str("#[cbor(decode_with = \"derive_rt::nilu8::decode\", nil = \"derive_rt::nilu8::nil\")] #[cbor(encode_with = \"derive_rt::nilu8::encode\", is_nil = \"derive_rt::nilu8::is_nil\")] #[cbor(cbor_len = \"derive_rt::nilu8::cbor_len\")] "),
-        FTy::NilU8FnsD => a.push_str("#[cbor(is_nil = \"derive_rt::nilu8::is_nil\")] #[cbor(encode_with = \"derive_rt::nilu8::encode\")] #[cbor(decode_with = \"derive_rt::nilu8::decode\", nil = \"derive_rt::nilu8::nil\", cbor_len = \"derive_rt::nilu8::cbor_len\")] "),
-        FTy::NilU8With => a.push_str("#[cbor(with = \"derive_rt::nilu8\", has_nil)] "),
+        FTy::BytesVec | FTy::OptBytesRef => {
+            if style == 1 {
+                parts.push("encode_with = \"minicbor::bytes::encode\"".into());
+                parts.push("decode_with = \"minicbor::bytes::decode\"".into());
+                parts.push("cbor_len = \"minicbor::bytes::cbor_len\"".into());
+            } else {
+                parts.push("with = \"minicbor::bytes\"".into());
+            }
+        }
+        FTy::NilU8With => {
+            if style == 2 {
+                parts.push("has_nil".into());
+                parts.push("with = \"derive_rt::nilu8\"".into());
+            } else {
+                parts.push("with = \"derive_rt::nilu8\"".into());
+                parts.push("has_nil".into());
+            }
+        }
         _ => {}
     }
-    a
+    let custom = match f.ty {
+        FTy::NilU8Fns => "#[cbor(encode_with = \"derive_rt::nilu8::encode\", decode_with = \"derive_rt::nilu8::decode\", is_nil = \"derive_rt::nilu8::is_nil\", nil = \"derive_rt::nilu8::nil\", cbor_len = \"derive_rt::nilu8::cbor_len\")] ",
+        FTy::NilU8FnsB => "#[cbor(encode_with = \"derive_rt::nilu8::encode\", is_nil = \"derive_rt::nilu8::is_nil\", cbor_len = \"derive_rt::nilu8::cbor_len\", decode_with = \"derive_rt::nilu8::decode\", nil = \"derive_rt::nilu8::nil\")] ",
+        FTy::NilU8FnsC => "#[cbor(decode_with = \"derive_rt::nilu8::decode\", nil = \"derive_rt::nilu8::nil\")] #[cbor(encode_with = \"derive_rt::nilu8::encode\", is_nil = \"derive_rt::nilu8::is_nil\")] #[cbor(cbor_len = \"derive_rt::nilu8::cbor_len\")] ",
+        FTy::NilU8FnsD => "#[cbor(is_nil = \"derive_rt::nilu8::is_nil\")] #[cbor(encode_with = \"derive_rt::nilu8::encode\")] #[cbor(decode_with = \"derive_rt::nilu8::decode\", nil = \"derive_rt::nilu8::nil\", cbor_len = \"derive_rt::nilu8::cbor_len\")] ",
+        _ => "",
+    };
+    match style {
+        // #[n(i)] first, every other attribute in its own #[cbor(..)]
+        0 => format!("#[{}({})] {}{}", idx_kw, f.idx, parts.iter().map(|p| format!("#[cbor({})] ", p)).collect::<String>(), custom),
+        // one combined list, index first
+        1 => {
+            let mut all = vec![format!("{}({})", idx_kw, f.idx)];
+            all.extend(parts);
+            format!("#[cbor({})] {}", all.join(", "), custom)
+        }
+        // other attributes first (one list), the index last and spelled through cbor(..)
+        _ => {
+            let pre = if parts.is_empty() { String::new() } else { format!("#[cbor({})] ", parts.join(", ")) };
+            format!("{}{}#[cbor({}({}))] ", custom, pre, idx_kw, f.idx)
+        }
+    }
 }
 
-fn fields_src(fields: &[FieldS], shape: Shape, all: &[Schema], public: bool) -> String {
+fn fields_src(fields: &[FieldS], shape: Shape, all: &[Schema], public: bool, style: usize) -> String {
     let vis = if public { "pub " } else { "" };
     match shape {
         Shape::Unit => String::new(),
-        Shape::Named => format!(" {{ {} }}", fields.iter().enumerate().map(|(k, f)| format!("{}{}f{}: {}", field_attrs(f), vis, k, if f.skip { "u8".to_string() } else { ty_src(&f.ty, all) })).collect::<Vec<_>>().join(", ")),
-        Shape::Tuple => format!("({})", fields.iter().map(|f| format!("{}{}{}", field_attrs(f), vis, if f.skip { "u8".to_string() } else { ty_src(&f.ty, all) })).collect::<Vec<_>>().join(", ")),
+        Shape::Named => format!(" {{ {} }}", fields.iter().enumerate().map(|(k, f)| format!("{}{}f{}: {}", field_attrs(f, style), vis, k, if f.skip { "u8".to_string() } else { ty_src(&f.ty, all) })).collect::<Vec<_>>().join(", ")),
+        Shape::Tuple => format!("({})", fields.iter().map(|f| format!("{}{}{}", field_attrs(f, style), vis, if f.skip { "u8".to_string() } else { ty_src(&f.ty, all) })).collect::<Vec<_>>().join(", ")),
     }
 }
 
@@ -1087,14 +1125,27 @@ pub fn emit_rust(all: &[Schema], shard: usize, shards: usize) -> String {
             Some(Enc::Map) => "#[cbor(map)] ",
         };
         let tag_attr = |t: &Option<u64>| t.map(|t| format!("#[cbor(tag({}))] ", t)).unwrap_or_default();
+        // container level: encoding and tag in separate attributes, or combined in either order
+        let enc_tag = |e: &Option<Enc>, t: &Option<u64>| -> String {
+            let en = match e {
+                None => None,
+                Some(Enc::Array) => Some("array"),
+                Some(Enc::Map) => Some("map"),
+            };
+            match (en, t, s.id % 3) {
+                (Some(en), Some(t), 1) => format!("#[cbor({}, tag({}))] ", en, t),
+                (Some(en), Some(t), 2) => format!("#[cbor(tag({}), {})] ", t, en),
+                _ => format!("{}{}", enc_attr(e), tag_attr(t)),
+            }
+        };
         match &s.kind {
             Kind::Struct(st) => {
-                o.push_str(&format!("{}\n{}{}{}pub struct T{}{}{}{}\n", derives, enc_attr(&st.enc), tag_attr(&st.tag), if st.transparent { "#[cbor(transparent)] " } else { "" }, s.id, gdecl, fields_src(&st.fields, st.shape, all, true), if st.shape == Shape::Named { "" } else { ";" }));
+                o.push_str(&format!("{}\n{}{}pub struct T{}{}{}{}\n", derives, enc_tag(&st.enc, &st.tag), if st.transparent { "#[cbor(transparent)] " } else { "" }, s.id, gdecl, fields_src(&st.fields, st.shape, all, true, s.id % 3), if st.shape == Shape::Named { "" } else { ";" }));
             }
             Kind::Enum(e) => {
-                o.push_str(&format!("{}\n{}{}{}pub enum T{}{} {{\n", derives, enc_attr(&e.enc), tag_attr(&e.tag), if e.index_only { "#[cbor(index_only)] " } else { "" }, s.id, gdecl));
+                o.push_str(&format!("{}\n{}{}pub enum T{}{} {{\n", derives, enc_tag(&e.enc, &e.tag), if e.index_only { "#[cbor(index_only)] " } else { "" }, s.id, gdecl));
                 for (p, v) in e.variants.iter().enumerate() {
-                    o.push_str(&format!("    #[n({})] {}{}V{}{},\n", v.idx, enc_attr(&v.enc), tag_attr(&v.tag), p, fields_src(&v.fields, v.shape, all, false)));
+                    o.push_str(&format!("    {} {}V{}{},\n", if s.id % 3 == 2 { format!("#[cbor(n({}))]", v.idx) } else { format!("#[n({})]", v.idx) }, enc_tag(&v.enc, &v.tag), p, fields_src(&v.fields, v.shape, all, false, s.id % 3)));
                 }
                 o.push_str("}\n");
             }
